@@ -35,4 +35,16 @@ ValidCuts(n) == { c \in UNION { { <<SubSeq(p, 1, a), SubSeq(p, a + 1, b), SubSeq
 AllAligned(n) == \A c \in ValidCuts(n) : \A ab \in BOOLEAN : \A sh \in BOOLEAN : Aligned(c, ab, sh) /\ IdsIncreasing(c, ab, sh)
 Misaligned(n) == { c \in ValidCuts(n) : \E ab \in BOOLEAN : \E sh \in BOOLEAN : ~Aligned(c, ab, sh) }
 Emit(n) == JsonSerialize(IOEnv.CASES_OUT, SetToSeq({ [slabs |-> c, sorted |-> SortIds(Concat(c))] : c \in ValidCuts(n) }))
+
+(* ---- extended coverage: chunking.  n_chunks splits the nfiles slab files into consecutive groups of n_jump = ceil(nfiles/n_chunks);
+   chunk c loads slabs [c*n_jump, min((c+1)*n_jump, nfiles)).  For n_chunks <= nfiles the chunks must tile the slabs. ---- *)
+CeilDiv(a, b) == (a + b - 1) \div b
+ChunkRange(nfiles, nch, c) == LET j == CeilDiv(nfiles, nch)  e == IF (c + 1) * j > nfiles THEN nfiles ELSE (c + 1) * j IN <<c * j, e>>
+ChunksTile(nfiles, nch) ==
+    /\ UNION { (ChunkRange(nfiles, nch, c)[1] + 1)..ChunkRange(nfiles, nch, c)[2] : c \in 0..(nch - 1) } = 1..nfiles
+    /\ \A c1, c2 \in 0..(nch - 1) : c1 # c2 =>
+          ((ChunkRange(nfiles, nch, c1)[1] + 1)..ChunkRange(nfiles, nch, c1)[2]) \cap ((ChunkRange(nfiles, nch, c2)[1] + 1)..ChunkRange(nfiles, nch, c2)[2]) = {}
+\* some chunk is empty or inverted (start beyond the files) although n_chunks <= nfiles
+DegenerateChunks(MaxF) == { <<f, n>> \in (1..MaxF) \X (1..MaxF) : n <= f /\ \E c \in 0..(n - 1) : ChunkRange(f, n, c)[1] >= ChunkRange(f, n, c)[2] }
+ChunkTheorem(MaxF) == \A f \in 1..MaxF : \A n \in 1..f : ChunksTile(f, n)
 =========================================================================================
